@@ -50,6 +50,9 @@ func (j job) run(st *stats) (*conn, witness) {
 	case "queued":
 		w.Seed = j.seed
 		c = runQueued(j.limit, j.seed, st)
+	case "slot-reuse":
+		w.Seed = j.seed
+		c = runSlotReuse(j.limit, j.seed, st)
 	}
 	w.Steps, w.Trace = c.steps, c.trace
 	return c, w
@@ -59,6 +62,7 @@ func (j job) run(st *stats) (*conn, witness) {
 func replay(w witness, st *stats) *conn {
 	c := newConn(w.Limit, w.Kind == "legal", st)
 	c.manualZombies = w.Kind == "queued"
+	c.bigMode = map[uint32]bool{}
 	if err := c.write([]byte("PRI * HTTP/2.0\r\n\r\nSM\r\n\r\n")); err != nil {
 		c.inconclusive("rig", "preface: %v", err)
 	}
@@ -87,6 +91,7 @@ func replay(w witness, st *stats) *conn {
 
 func merge(dst, src *stats) {
 	dst.zombieReturns += src.zombieReturns
+	dst.slotReuse += src.slotReuse
 	for k, v := range src.frames {
 		dst.frames[k] += v
 	}
@@ -179,6 +184,16 @@ func main() {
 	}
 	for i, n := 0, run.Pick(60, 1500); i < n; i++ {
 		jobs = append(jobs, job{kind: "queued", limit: limits[i%3], seed: seeds.Int63()})
+	}
+	// "slot-reuse" scripts (runSlotReuse) are NOT scheduled: over the rig's synchronous pipe the server's write
+	// of the final DATA frame returns only when the client has read it, so the unchanged server itself refuses
+	// the stream the client opens right behind END_STREAM in about 1 % of the attempts (the result of its
+	// asynchronous write is not yet on wroteFrameCh when the next HEADERS is processed). With a kernel socket
+	// the write returns before the client can have seen the bytes. Kept for VERIF_C13_SCRIPT experiments.
+	if os.Getenv("VERIF_C13_SLOT_REUSE") != "" {
+		for i := 0; i < 100; i++ {
+			jobs = append(jobs, job{kind: "slot-reuse", limit: limits[i%3], seed: seeds.Int63()})
+		}
 	}
 
 	if sd := os.Getenv("VERIF_C13_SCRIPT"); sd != "" { // debugging aid: "<random|legal> <limit> <seed>": run one script, print its trace
@@ -311,6 +326,7 @@ func main() {
 	run.Add("error_goaway_last_id_reaches_a_request_sent_behind_the_error", total.lastCoversBehind)
 	run.Add("handler_starts_queued_behind_zombies", total.queuedStart)
 	run.Add("zombie_handlers_returned_one_at_a_time", total.zombieReturns)
+	run.Add("streams_opened_right_behind_an_end_stream_at_the_limit", total.slotReuse)
 	run.Add("rst_superseded_by_goaway", total.superseded)
 	run.Add("serveconn_returned_after_close", total.srvReturned)
 	run.Add("serveconn_left_to_its_goaway_timer", total.srvLingering)
